@@ -96,6 +96,8 @@ class Family:
         self.by_cls = {v: k for k, v in self.classes.items()}
         self.atoms = {id(self.ns["F0"]): 100, id(self.ns["F1"]): 101, id(self.ns["K0"]): 200,
                       id(self.ns["K1"]): 201, id(self.ns["M0"]): 300, id(self.ns["M1"]): 301}
+        for n, c in self.classes.items():      # spec class OBJECTS as values: identity-compared atoms
+            self.atoms[id(c)] = 400 + CLS_ID[n]
         from spec_classes import MISSING
         self.MISSING = MISSING
 
@@ -127,6 +129,8 @@ class Family:
             return self.ns[f"K{r[1]}"]
         if t == "module":
             return self.ns[f"M{r[1]}"]
+        if t == "speccls":                       # the class object itself, not an instance
+            return self.classes[r[1]]
         if t == "meth":
             return getattr(holder, f"meth{r[1]}")
         if t == "inner":
@@ -659,25 +663,28 @@ def values_for(kind, rng):
     if kind == "list":
         return [["list", [["int", 1]]], ["list", []], ["list", [["int", 1], ["list", [["str", "a"]]]]],
                 ["list", [["inner", {"p": ["int", 1]}]]], ["list", [["inner", {"p": ["int", 1], "q": ["int", 9]}]]],
-                ["list", [["bool", True]]], ["list", [["tuple", [["int", 1], ["none"]]]]]]
+                ["list", [["bool", True]]], ["list", [["tuple", [["int", 1], ["none"]]]]],
+                ["list", [["speccls", "Base"], ["speccls", "Keyed"]]], ["list", [["speccls", "Inner"], ["class", 0]]]]
     if kind == "dict":
         return [["dict", [[["str", "a"], ["int", 1]]]], ["dict", []],
                 ["dict", [[["str", "a"], ["int", 1]], [["str", "b"], ["int", 2]]]],
                 ["dict", [[["str", "b"], ["int", 2]], [["str", "a"], ["int", 1]]]],
-                ["dict", [[["int", 1], ["list", [["int", 1]]]]]], ["dict", [[["bool", True], ["list", [["int", 1]]]]]]]
+                ["dict", [[["int", 1], ["list", [["int", 1]]]]]], ["dict", [[["bool", True], ["list", [["int", 1]]]]]],
+                ["dict", [[["str", "a"], ["speccls", "Base"]]]], ["dict", [[["str", "a"], ["speccls", "Keyed"]]]]]
     if kind == "spec":
         return [["inner", {"p": ["int", 1]}], ["inner", {"p": ["int", 2]}], ["inner", {"p": ["int", 1], "q": ["str", "a"]}],
                 ["inner", {}]]
     if kind == "meth":
-        return [["meth", 0], ["meth", 1], ["func", 0], ["none"]]
+        return [["meth", 0], ["meth", 1], ["func", 0], ["none"], ["speccls", "Base"]]
     if kind == "clsfun":
         return [["default"], ["meth", 0], ["func", 0], ["meth", 1]]
     if kind == "func":
-        return [["func", 0], ["func", 1], ["none"]]
+        return [["func", 0], ["func", 1], ["none"], ["speccls", "Inner"]]
     if kind == "class":
-        return [["class", 0], ["class", 1], ["func", 0]]
+        return [["speccls", "Base"], ["speccls", "Keyed"], ["class", 0], ["speccls", "Inner"], ["class", 1],
+                ["speccls", "Sub"], ["speccls", "Plain"]]
     if kind == "module":
-        return [["module", 0], ["module", 1], ["none"]]
+        return [["module", 0], ["module", 1], ["none"], ["speccls", "Keyed"]]
     raise AssertionError(kind)
 
 
@@ -769,10 +776,18 @@ def repr_graphs(rng, fam):
         return {"nodes": [["inst", cls, attrs]] + list(extra_nodes), "root": 0}
 
     L = ["long"]
-    scal = [["int", 1], ["str", "a"], ["none"], ["func", 0], ["class", 0], ["module", 0]]
+    scal = [["int", 1], ["str", "a"], ["none"], ["func", 0], ["class", 0], ["module", 0],
+            ["speccls", "Base"], ["speccls", "Keyed"]]
     pad = lambda xs: xs + [rng.choice(scal + [["missing"]]) for _ in range(len(names) - len(xs))]
     for longv in (False, True):
         tail = [L] if longv else []
+        # attribute values that are spec CLASS OBJECTS: the instance's own class, another
+        # spec class, a keyed spec class; directly, in a list, in a dict, in a tuple
+        for own in ("Base", "Inner", "Keyed", SUB):
+            out.append(dict(g([["speccls", own]] + tail + [["int", 1]] * (len(names) - 1 - len(tail))), must=True))
+        out.append(dict(g(pad([["n", 1]] + tail), [["list", [["speccls", "Base"], ["speccls", "Keyed"], ["speccls", "Inner"]] + tail]]), must=True))
+        out.append(dict(g(pad([["n", 1]] + tail), [["dict", [[["str", "o"], ["speccls", "Base"]], [["str", "k"], ["speccls", "Keyed"]]] + ([[["str", "l"], L]] if longv else [])]]), must=True))
+        out.append(dict(g(pad([["n", 1]] + tail), [["tuple", [["speccls", "Base"], ["n", 2]]], ["list", [["speccls", SUB], ["n", 0]]]]), must=True))
         # x.a = x
         out.append(g(pad([["n", 0]] + tail)))
         # x.a = [x]; x.a = (x,) ; x.a = {"k": x}
@@ -854,7 +869,9 @@ def generate(rng, tier):
                     cases.append({"kind": "dc", "fam": fid, "a": st, "gen": "deepcopy"})
                     cases.append({"kind": "eq", "fam": fid, "a": st, "b": json.loads(json.dumps(st)), "gen": "pool-pair"})
         graphs = repr_graphs(rng, fam)
-        for gr in (rng.sample(graphs, min(len(graphs), 12)) if quick else graphs):
+        must = [gr for gr in graphs if gr.get("must")]
+        rest = [gr for gr in graphs if not gr.get("must")]
+        for gr in (must + rng.sample(rest, min(len(rest), 10)) if quick else graphs):
             cases.append({"kind": "repr", "fam": fid, "graph": gr, "gen": "repr-graph"})
         for st in rng.sample(pool, 4 if quick else 10):
             cases.append({"kind": "repr", "fam": fid, "gen": "repr-state",
